@@ -157,12 +157,21 @@ def run(ctx, proof):
                           {"n": n, "comp": comp, "gap": gap, "games": [[str(x) for x in v] for v in sample_games], "k": k, "failures": str(bad[:5])})
     # best states
     bs_lines, bs_meta = [], []
-    for _ in range(3 if ctx.quick else 20):
-        n = 3 if rng.random() < 0.6 else 4
+    for bs_i in range(4 if ctx.quick else 24):
+        n = 4 if bs_i % 4 in (1, 3) else (3 if rng.random() < 0.6 else 4)   # at n = 3 all pairs tie; the scaled runs use n = 4
         comp = rng.choice(["superadditive", "superadditive_cached"])
         gap = rng.choice(gaps)
         reps = rng.randint(2, 3)
-        sample_games = [games.sa_closure_game(rng, n, "int", neg_singletons=False) for _ in range(reps)]
+        # value scale: the statement is scale free, so the same integer games are also used multiplied by a power of two
+        # (exact in binary floating point) far below / above 1; all comparisons below are relative to the games' magnitude
+        from fractions import Fraction
+        vscale = [Fraction(1), Fraction(1, 2 ** 24), Fraction(2 ** 12), Fraction(1, 2 ** 30)][bs_i % 4]
+        sample_games = [[vscale * x for x in games.sa_closure_game(rng, n, "int", neg_singletons=False)] for _ in range(reps)]
+        mag = max(abs(float(x)) for v in sample_games for x in v) * 2 ** n or 1.0
+        ctx.count("best_states_value_scale", str(vscale))
+
+        def rclose(a, b):
+            return abs(float(a) - float(b)) <= 1e-9 * mag
         max_steps = rng.randint(1, 3 if n == 3 else 2)
         res = {}
         for p in ([1, 2] if ctx.quick else [1, 2, 4]):
@@ -188,20 +197,20 @@ def run(ctx, proof):
             means = [(sum(col) / len(col), s) for s, col in cands if len(s) == r]
             mn = min(m for m, _ in means)
             got = float(np.mean(best[r]))
-            if not close(got, mn, 1e-9, max(1.0, abs(mn))):
+            if not rclose(got, mn):
                 fails.append((r, "mean not minimal", got, mn))
             col_of = {tuple(s): col for s, col in cands}
-            if tuple(acts[r]) not in col_of or not all(close(a, b, 1e-9, max(1.0, abs(b))) for a, b in zip(best[r], col_of[tuple(acts[r])])):
+            if tuple(acts[r]) not in col_of or not all(rclose(a, b) for a, b in zip(best[r], col_of[tuple(acts[r])])):
                 fails.append((r, "recorded set does not attain the recorded values", acts[r]))
         curve = [float(np.mean(best[r])) for r in range(max_steps + 1)]
-        if any(curve[i + 1] > curve[i] + 1e-9 for i in range(max_steps)):
+        if any(curve[i + 1] > curve[i] + 1e-9 * mag for i in range(max_steps)):
             fails.append(("curve increases", curve))
         if fails:
             ctx.violation(f"best-states violates its specification: {fails[:3]}",
                           {"n": n, "comp": comp, "gap": gap, "games": [[str(x) for x in v] for v in sample_games], "max_steps": max_steps})
         bs_lines.append("beststates %d %d %d %s" % (max_steps, reps, len(cands),
                         " ".join(("%d %s " % (len(s), " ".join(map(str, s))) if s else "0 ") + " ".join(qtok(x) for x in col) for s, col in cands)))
-        bs_meta.append((n, gap, best, acts, max_steps))
+        bs_meta.append((n, gap, best, acts, max_steps, mag))
         ctx.count("best_states_n", n)
     outs = run_driver_parallel(lines + bs_lines)
     mism = []
@@ -217,13 +226,13 @@ def run(ctx, proof):
             if mids != s or not gap_close(gap, val, mv, scale):
                 mism.append(f"n={n} {comp} {gap} K0={K0} set={s}: impl {val} vs model {None if mv is None else float(mv)}")
                 break
-    for (n, gap, best, acts, ms), out in zip(bs_meta, outs[len(lines):]):
+    for (n, gap, best, acts, ms, mag), out in zip(bs_meta, outs[len(lines):]):
         items = [x for x in out.split(";") if x.strip()]
         for r, it in enumerate(items):
             toks = it.split()
             mids = [int(x) for x in toks[0].strip("[]").split(",") if x]
             col = [float(tokq(x)) for x in toks[1:]]
-            if mids != acts[r] or not all(close(a, b, 1e-9, max(1.0, abs(b))) for a, b in zip(best[r], col)):
+            if mids != acts[r] or not all(abs(float(a) - float(b)) <= 1e-9 * mag for a, b in zip(best[r], col)):
                 mism.append(f"best states size {r}: impl {acts[r]} {list(best[r])} vs model {mids} {col}")
                 break
     if mism and not any(v["found_input"] for v in ctx.violations):
